@@ -282,7 +282,14 @@ func runProcessScript(c procCase) (fails []h.Failure, obs observations) {
 					obs.notObserved["stalled upload connected"]++
 					continue
 				}
-				fmt.Fprintf(conn, "POST /x?t=%s HTTP/1.1\r\nHost: zn.test\r\nContent-Type: text/plain\r\nContent-Length: 100\r\n\r\n0123456789", tok)
+				switch {
+				case strings.HasPrefix(tok, "stallsilent"):
+					// connects and never sends anything
+				case strings.HasPrefix(tok, "stallhead"):
+					fmt.Fprintf(conn, "POST /x?t=%s HTTP/1.1\r\nHost: zn.test\r\n", tok) // the head never ends
+				default:
+					fmt.Fprintf(conn, "POST /x?t=%s HTTP/1.1\r\nHost: zn.test\r\nContent-Type: text/plain\r\nContent-Length: 100\r\n\r\n0123456789", tok)
+				}
 				stalledConns = append(stalledConns, conn)
 				stalled = true
 			}
@@ -452,6 +459,9 @@ func TestProcessStalledUploads(t *testing.T) {
 	for i, c := range []procCase{
 		{Init: 1, Max: 1, Steps: []step{{Kind: "stall", Tokens: []string{"stall1"}}, {Kind: "wait", Ms: 5000}, {Kind: "requests", Tokens: []string{"after2"}}}},
 		{Init: 2, Max: 2, Steps: []step{{Kind: "requests", Tokens: []string{"fast1"}}, {Kind: "wait", Ms: 300}, {Kind: "stall", Tokens: []string{"stall2", "stall3"}}, {Kind: "wait", Ms: 5000}, {Kind: "requests", Tokens: []string{"after4", "after5"}}}},
+		// the same with requests whose HEAD never arrives completely / at all
+		{Init: 1, Max: 1, Steps: []step{{Kind: "stall", Tokens: []string{"stallhead1"}}, {Kind: "wait", Ms: 5000}, {Kind: "requests", Tokens: []string{"after2"}}}},
+		{Init: 2, Max: 2, Steps: []step{{Kind: "stall", Tokens: []string{"stallsilent1", "stallhead2"}}, {Kind: "wait", Ms: 5000}, {Kind: "requests", Tokens: []string{"after3", "after4"}}}},
 	} {
 		fails, obs := runProcessScript(c)
 		for k, v := range obs.notObserved {
